@@ -197,13 +197,41 @@ void Groups::evalArguments( int argc, char* argv[]) noexcept( false)
    for (auto ai = alp.begin(); ai != alp.end(); ++ai)
    {
       auto  result = Handler::ArgResult::unknown;
+
+      if (ai->mElementType == detail::ArgListElement::Type::value)
+      {
+         // a free value belongs to the argument that was used last, if this
+         // argument accepts multiple values, no matter in which handler it is
+         // defined
+         for (auto & stored_group : mArgGroups)
+         {
+            auto  last_arg = stored_group.mpArgHandler->mpLastArg;
+            if ((last_arg != nullptr) && last_arg->takesMultiValue())
+            {
+               result = stored_group.mpArgHandler->evalSingleArgument( ai, alp.end());
+               break;   // for
+            } // end if
+         } // end for
+      } else if ((ai->mElementType == detail::ArgListElement::Type::singleCharArg)
+                 || (ai->mElementType == detail::ArgListElement::Type::stringArg))
+      {
+         // a new argument: no handler may still wait for values of its last
+         // argument
+         for (auto & stored_group : mArgGroups)
+         {
+            stored_group.mpArgHandler->mpLastArg = nullptr;
+         } // end for
+      } // end if
+
       for (auto & stored_group : mArgGroups)
       {
+         if (result != Handler::ArgResult::unknown)
+            break;   // for
+
          result = stored_group.mpArgHandler->evalSingleArgument( ai, alp.end());
          if (result != Handler::ArgResult::unknown)
          {
             usage_printed |= stored_group.mpArgHandler->usagePrinted();
-            break;   // for
          } // end if
       } // end for
 
